@@ -56,9 +56,10 @@ def run(rep, tier, seed, replay):
         rep.stats["always-but-open"] += 1
         inp = {"expr": exprs[k], "path": pp, "descendant": q}
         f = frag[k]
-        if pp == "":
-            # the theorem is about non-empty matched paths: the descendants of the empty path are the
-            # relative paths, which do not begin with a separator (finding (e) of DESIGN.md, C09)
+        if pp in ("", "/"):
+            # the theorem is about matched paths other than "" and "/": their descendants are obtained by
+            # appending a separator and a remainder; the descendants of "" and "/" are not of that form
+            # (finding (e) of DESIGN.md, C09)
             f = "out:K-EXH-EMPTY"
         if f == "in":
             rep.violation("oracle", "exhaustive_sound_compiled applies (F09a and F01) but a matched path has an unmatched descendant", inp, impl="always", fragment=f)
